@@ -124,7 +124,10 @@ def lazy(rng, a, p=0.5):
         return a, tuple(range(a.ndim))
     perm = list(range(a.ndim))
     rng.shuffle(perm)
-    return a.transpose(tuple(perm)), tuple(perm)
+    b = a.transpose(tuple(perm))
+    if FORCE_CONSUME[0]:
+        b = b.consume_transpose()
+    return b, tuple(perm)
 
 
 def snapshot(a):
@@ -132,13 +135,31 @@ def snapshot(a):
     return (a.struct, a.slices, a.hfs, a.mfs, a.trans, a.isdiag, str(a._data.dtype), a._data.tobytes())
 
 
+def fully_unfused(a):
+    """undo every meta and hard fusion (the configuration-independent presentation of a tensor)"""
+    for _ in range(8):
+        if a.isdiag:
+            return a
+        fused = [i for i, m in enumerate(a.mfs) if m != (1,)]
+        if not fused:
+            lg = a.get_legs()
+            lg = lg if isinstance(lg, (list, tuple)) else (lg,)
+            fused = [i for i, l in enumerate(lg) if l.hf.tree != (1,) and l.hf.op[0] == 'p']
+        if not fused:
+            return a
+        a = a.unfuse_legs(axes=tuple(fused))
+    return a
+
+
 def obs(a):
-    """observable value: legs (with history), charge, dense array bytes"""
+    """observable value independent of fusion mode / lazy state: unfused legs (s, t, D), charge, dense array bytes"""
     if isinstance(a, (int, float, complex, np.number)):
         return ('num', complex(a))
-    lg = a.get_legs()
+    a = fully_unfused(a)
+    lg = a.get_legs() if a.ndim else ()
     lg = lg if isinstance(lg, (list, tuple)) else (lg,)
-    return ('ten', tuple((l.s, l.t, l.D, str(l.hf)) for l in lg), a.n, a.to_numpy().tobytes() if a.size or True else b'')
+    d = a.to_numpy()
+    return ('ten', tuple((l.s, l.t, l.D) for l in lg), tuple(a.n), d.shape, str(d.dtype), d.tobytes())
 
 
 # --------------------------------------------------------------------------------------------------------------
@@ -149,11 +170,18 @@ class Skip(Exception):
     pass
 
 
+FORCE_CONSUME = [False]
+
+
 def pick_cfg(rng, opts):
-    sym = opts.get('sym') or rng.choice(SYMS)
+    # the random stream is consumed identically whatever the options override (differential runs rebuild the same tensors)
+    sym_r = rng.choice(SYMS)
+    pol_r = rng.choice(POLICIES)
+    sym = opts.get('sym') or sym_r
     ferm = opts.get('fermionic', False)
-    pol = opts.get('policy') or rng.choice(POLICIES)
+    pol = opts.get('policy') or pol_r
     fusion = opts.get('fusion', 'hard')
+    FORCE_CONSUME[0] = bool(opts.get('consume'))
     return sym, make_cfg(sym, ferm, pol, fusion, opts.get('force'))
 
 
@@ -525,7 +553,8 @@ def sc_fuse(rng, opts):
         g = tuple(order[i:i + k])
         groups.append(g if len(g) > 1 else g[0])
         i += k
-    mode = opts.get('mode') or rng.choice(['hard', 'meta'])
+    mode_r = rng.choice(['hard', 'meta'])
+    mode = opts.get('mode') or mode_r
     depth2 = rng.random() < 0.4 and len(groups) >= 2
     mode2 = rng.choice(['hard', 'meta'])
     op = rng.choice(['roundtrip', 'norm', 'dense', 'dot', 'add', 'vdot'])
@@ -598,7 +627,9 @@ def sc_swap(rng, opts):
     ferm = opts.get('fermionic', None)
     if ferm is None:
         ferm = rng.choice(FERMIONIC_OK[sym])
-    cfg = make_cfg(sym, ferm, rng.choice(POLICIES))
+    pol_r = rng.choice(POLICIES)
+    FORCE_CONSUME[0] = bool(opts.get('consume'))
+    cfg = make_cfg(sym, ferm, opts.get('policy') or pol_r)
     r = rng.randint(2, 5)
     la = [rleg(rng, cfg, sym, maxD=2) for _ in range(r)]
     a = rtensor(rng, cfg, la, n=allowed_charge(rng, cfg, sym, la), cplx=rng.random() < 0.3, drop=rng.choice([0, 0.3]))
